@@ -1,12 +1,17 @@
 #!/usr/bin/env bash
-# Runs, for every seeded change, the quick check of the property it was written against
-# (scratch worktrees; /repo untouched) and writes seeded/RESULTS.txt.
+# Runs, for every seeded change (or only those named on the command line), the
+# quick check of the property it was written against (scratch worktrees;
+# /repo untouched) and records the outcome in seeded/RESULTS.txt (one line per change).
 cd "$(dirname "$0")"
 out=seeded/RESULTS.txt
-: > "$out"
-for d in seeded/C*; do
+touch "$out"
+if [ $# -gt 0 ]; then set -- "${@/#/seeded/}"; else set -- seeded/C*; fi
+for d in "$@"; do
   [ -f "$d/patch.diff" ] || continue
-  label="$(basename "$d" | cut -d- -f1)"
+  name="$(basename "$d")"
+  label="${name%%-*}"
   r="$(./eval_seeded.sh "$d" checks "$label" 2>&1 | grep -E "^$label: " | head -1 | cut -c1-260)"
-  echo "$(basename "$d"): $r" | tee -a "$out"
+  grep -v "^$name: " "$out" > "$out.tmp" || true
+  echo "$name: $r" | tee -a "$out.tmp"
+  sort -o "$out" "$out.tmp"; rm -f "$out.tmp"
 done
